@@ -19,7 +19,7 @@ VERIF = os.path.dirname(os.path.dirname(os.path.abspath(__file__)))
 REPO = os.environ.get('VERIF_REPO', '/repo')
 DRIVER_DIR = os.path.join(VERIF, 'driver')
 DRIVER = os.path.join(DRIVER_DIR, 'target', 'debug', 'factgen')
-CACHE = os.path.join(VERIF, '.cache')
+CACHE = os.environ.get('VERIF_CACHE') or os.path.join(VERIF, '.cache')   # override: tools/pmatrix.py (scratch copies analysed in parallel)
 
 CONFIGS = {
     # id: (cargo selector args, description)
